@@ -180,6 +180,10 @@ RULE = ("release triples over the component grid {0,1,2,10} (quick) / {0,1,2,9,1
         "component grid also semver/semver and both mixed spellings), compared with packaging.Version ordering and 'first release "
         "component that differs'; pairs where only the pre-release part grew are evaluated but not judged; non-trivial = pre-release "
         "versions / pairs classified other than none")
+from vmc.tables import _ROUND7 as _R7  # noqa: E402
+
+RULE += _R7["C34"]
+
 
 
 def run(tier: str, seed: int) -> Any:
